@@ -55,5 +55,5 @@ NoisesAll   == {-64 * U, -2 * U, 0, 2 * U, 64 * U}      \* "-big, -small, 0, sma
 NoisesSmall == {-64 * U, 0, 2 * U}
 NoNoise == {0}
 
-View == <<bat, lo, hi, eLo, eHi, dLo, dHi, pE, mE, dec, tab, nops, last>>   \* everything but the history
+View == <<bat, lo, hi, eLo, eHi, dLo, dHi, pE, mE, dec, tab, base, nops, last>>   \* everything but the history
 =============================================================================
